@@ -6,7 +6,7 @@
         let t: u64 = kani::any();
         kani::assume(0 < t && t <= MAX_THETA);
         let f = t as f64 / MAX_THETA as f64;
-        assert!(f > 0.0 && f <= 1.0);
+        assert!(f > 0.0 && f <= 1.0 && !f.is_nan());
     }
     #[kani::proof]
     fn leaf_theta_frac_one() {
